@@ -14,8 +14,10 @@ func (b Bytes) Equals(bb Bytes) bool {
 	return bytes.Equal(b, bb)
 }
 
+// Slice returns the bytes from begin to end inclusive. The capacity of the result
+// ends where its length does, so that appending to it cannot write into b.
 func (b Bytes) Slice(begin, end Index) Bytes {
-	return b[begin : end+1]
+	return b[begin : end+1 : end+1]
 }
 
 // InQuotes the function is only needed in order not to modify the library function unquoteBytes()
